@@ -22,6 +22,7 @@ from typing import TYPE_CHECKING, Any
 #
 import asimap.trace
 from asimap.generator import get_msg_size, msg_as_bytes, msg_headers_as_bytes
+from asimap.parse import IMAPClientCommand, IMAPCommand
 from asimap.pop3_parse import BadPOP3Command, parse_pop3_command
 from asimap.trace import trace
 
@@ -457,11 +458,21 @@ class POP3CommandHandler:
             uids_to_delete = [
                 self.snapshot_uids[n - 1] for n in sorted(self.deleted)
             ]
+            # Like any other command that changes the mailbox the expunge has
+            # to wait for its turn in the mailbox's command queue: an IMAP
+            # session may be in the middle of a FETCH or STORE. We use a phony
+            # IMAP command for that (as `Mailbox.copy()` and MOVE do). MOVE
+            # because, like the last phase of a MOVE, this removes messages
+            # by UID regardless of their flags and must run alone.
+            #
+            quit_cmd = IMAPClientCommand("A001 MOVE")
+            quit_cmd.command = IMAPCommand.MOVE
             try:
-                await self.mbox.expunge(
-                    uid_msg_set=uids_to_delete,
-                    check_deleted=False,
-                )
+                async with quit_cmd.ready_and_okay(self.mbox):
+                    await self.mbox.expunge(
+                        uid_msg_set=uids_to_delete,
+                        check_deleted=False,
+                    )
             except Exception:
                 logger.exception("Error expunging messages on POP3 QUIT")
                 await self.client.push(
